@@ -247,6 +247,8 @@ pub struct SimDensity {
     pub eval_cost_ns: u64,
     /// expand_vector output: extra deterministic variables?
     pub expanded_extra: bool,
+    /// engine B: Model::math instance number (enables per-task bookkeeping of unrecoverable faults)
+    pub instance: Option<u32>,
 }
 
 impl SimDensity {
@@ -258,6 +260,7 @@ impl SimDensity {
             jump: 5000.0,
             eval_cost_ns: 0,
             expanded_extra: false,
+            instance: None,
         }
     }
 }
@@ -299,7 +302,12 @@ impl CpuLogpFunc for SimDensity {
             log.faults_fired.push((index, kind));
             match kind {
                 FaultKind::RecoverableErr => ret_err = Some(SimLogpError::Recoverable(index)),
-                FaultKind::UnrecoverableErr => ret_err = Some(SimLogpError::Unrecoverable(index)),
+                FaultKind::UnrecoverableErr => {
+                    if let Some(inst) = self.instance {
+                        crate::sched::note_unrecoverable(format!("density_unrecoverable_err@{inst}:{index}"));
+                    }
+                    ret_err = Some(SimLogpError::Unrecoverable(index))
+                }
                 FaultKind::NanLogp => lp = f64::NAN,
                 FaultKind::PosInfLogp => lp = f64::INFINITY,
                 FaultKind::NegInfLogp => lp = f64::NEG_INFINITY,
